@@ -58,6 +58,9 @@ func Spec() *run.Spec {
 			"nontrivial.Mesh.WeldByFloat3Attribute":          50,
 			"nontrivial.weld∘unweld":                         50,
 			"nontrivial.Mesh.ToPointCloud":                   100,
+			"large.point_clouds":                             5,
+			"large.triangle_meshes":                          3,
+			"large.filter_and_crop_runs":                     60,
 			"derive_twice.bases_with_spare_capacity":         500,
 			"reverified_outputs":                             100000,
 			"nontrivial.Mesh.Append":                         100,
@@ -90,6 +93,10 @@ func Spec() *run.Spec {
 			{Name: "layout", Cases: n(6000, 300000), Run: layoutCase, Batch: 250, CPUBudgetS: 20},
 			{Name: "combine", Cases: n(5000, 250000), Run: combineCase, Batch: 250, CPUBudgetS: 20},
 			{Name: "filter", Cases: n(4000, 200000), Run: filterCase, Batch: 250, CPUBudgetS: 20},
+			// large: schedule- and size-dependent behaviour (code paths that only large inputs
+			// take, goroutine fan-out). One case per worker child, GOMAXPROCS >= 4.
+			{Name: "large", Cases: n(10, 120), Run: largeCase, Batch: 1, CPUBudgetS: 900, Parallel: 8,
+				Env: func(b int) []string { return []string{fmt.Sprintf("GOMAXPROCS=%d", []int{4, 8, 16}[b%3])} }},
 			{Name: "transform", Cases: n(6000, 300000), Run: transformCase, Batch: 250, CPUBudgetS: 20},
 		},
 	}
@@ -159,6 +166,8 @@ type model struct {
 	W     int // width of a vertex tuple
 	L     int // vertex count
 	K     int // corners per primitive
+	// cached corner view over names (large meshes are viewed many times)
+	cachedPrims [][]float64
 }
 
 func newModel(s *ref.Snapshot) *model {
@@ -226,7 +235,12 @@ func (m *model) primsOver(keys []string) [][]float64 {
 	return out
 }
 
-func (m *model) prims() [][]float64 { return m.primsOver(m.names) }
+func (m *model) prims() [][]float64 {
+	if m.cachedPrims == nil {
+		m.cachedPrims = m.primsOver(m.names)
+	}
+	return m.cachedPrims
+}
 
 func sameNames(a, b []string) bool { return strings.Join(a, "|") == strings.Join(b, "|") }
 
@@ -345,6 +359,8 @@ type opctx struct {
 	// retained: every result produced during the case with its observable state at
 	// the time it was produced; re-read after all operations of the case have run
 	retained []retainedOut
+	// noRetain: phase large does not keep every (huge) result until the end of the case
+	noRetain bool
 }
 
 type retainedOut struct {
@@ -452,6 +468,9 @@ func (o *opctx) callMesh(site string, f func() modeling.Mesh, extra ...any) (mod
 }
 
 func (o *opctx) retain(site string, m modeling.Mesh, snap *ref.Snapshot) {
+	if o.noRetain {
+		return
+	}
 	o.retained = append(o.retained, retainedOut{site, m, snap})
 }
 
